@@ -81,9 +81,10 @@ def build_sigs(prog):
 
 
 class Lower:
-    def __init__(self, fn, sigs=None):
+    def __init__(self, fn, sigs=None, keep_bindings=False):
         self.fn = fn
         self.sigs = sigs or {}
+        self.keep_bindings = keep_bindings      # reference/pointer locals stay variables: `v = bind(expr)`
         self.consts = {}        # static const locals with literal init: name -> IR
         self.decl_zero = []     # (name, line) locals declared with an initialiser
         self.locals = {}        # name -> type
@@ -290,6 +291,9 @@ class Lower:
                     init = v['init']
                     if init.get('k') in ('Ctor',) and not init['args']:
                         continue       # default-constructed object
+                    if self.keep_bindings and v['ty'].rstrip().endswith(('&', '*')):
+                        out.append(('assign', ('var', v['name']), ('op', 'bind', self.ex(init)), v.get('l', l)))
+                        continue
                     if v['ty'].rstrip().endswith('&') and v.get('dk') != 'static_local':
                         self.aliases[v['name']] = self.ex(init)     # reference alias: substituted at uses
                         continue
@@ -329,6 +333,10 @@ class Lower:
                     return [('do', v, lo_, hi, st[3], body, l)]
             return [('loop', init, cond, inc, body, False, l)]
         if k == 'ForRange':
+            if self.keep_bindings and s['var']['ty'].rstrip().endswith('&'):
+                return [('loop', [], ('op', 'more', self.ex(s['range'])), [],
+                         [('assign', ('var', s['var']['name']), ('op', 'bind', ('op', 'elem', self.ex(s['range']))), l)]
+                         + self.stmts(s['body']), False, l)]
             return [('loop', [('assign', ('var', s['var']['name']), ('op', 'iter', self.ex(s['range'])), l)],
                      ('op', 'more', self.ex(s['range'])), [], self.stmts(s['body']), False, l)]
         if k == 'While':
@@ -431,7 +439,7 @@ def _writes(body, name):
     return False
 
 
-def lower_function(fn, sigs=None):
-    lo = Lower(fn, sigs)
+def lower_function(fn, sigs=None, keep_bindings=False):
+    lo = Lower(fn, sigs, keep_bindings)
     body = lo.stmts(fn['body'])
     return body, lo
